@@ -8,6 +8,7 @@ import (
 	"fmt"
 
 	"github.com/osteele/liquid/values"
+	"github.com/osteele/liquid/verifhook"
 )
 
 type parseValue struct {
@@ -34,6 +35,7 @@ func Parse(source string) (expr Expression, err error) {
 }
 
 func parse(source string) (p *parseValue, err error) {
+	verifhook.Step(verifhook.SiteExprParse)
 	defer func() {
 		if r := recover(); r != nil {
 			switch e := r.(type) {
